@@ -38,6 +38,11 @@ def main():
         patch = os.path.join(d, "patch.diff")
         props = meta.get("props") or [meta["property"]]
         expect = meta.get("expect", "violation")
+        if meta.get("superseded"):
+            # written against code that a later fix: commit rewrote; re-made for
+            # the repaired code under the name given
+            print(f"SUPERSEDED     {name} -> {meta['superseded']}", flush=True)
+            continue
         for p in props:
             res, out = run_one(patch, p, expect)
             print(f"{res:14s} {name} prop={p} expect={expect}", flush=True)
